@@ -62,6 +62,10 @@ def observables(t, periodic, want_discrete=True):
     out["distances"] = md.compute_distances(t, pairs, periodic=periodic)
     out["angles"] = md.compute_angles(t, trip, periodic=periodic)
     out["dihedrals"] = md.compute_dihedrals(t, quad, periodic=periodic)
+    # distance of the closest contact between the first and the second half of the atoms (the pair itself may change among ties)
+    g1, g2 = np.arange(0, n // 2), np.arange(n // 2, n)
+    out["closest-contact"] = np.array([md.geometry.distance.find_closest_contact(t, g1, g2, frame=f, periodic=periodic)[2]
+                                       for f in range(t.n_frames)])
     out["contacts"] = md.compute_contacts(t, "all", scheme="closest-heavy", periodic=periodic)[0]
     for scheme in ("ca", "closest", "sidechain", "sidechain-heavy"):
         out["contacts-" + scheme] = md.compute_contacts(t, "all", scheme=scheme, periodic=periodic)[0]
@@ -156,7 +160,7 @@ def run_case(case):
         ob, _p = observables(tb, periodic, want_discrete=True)
         xmax = float(max(np.abs(ta.xyz).max(), np.abs(tb.xyz).max()))
         ctol = 64 * oracle.EPS32 * (xmax + 1)
-        for name in ("distances", "contacts", "contacts-ca", "contacts-closest", "contacts-sidechain", "contacts-sidechain-heavy", "rg", "gyration-eig", "drid"):
+        for name in ("distances", "closest-contact", "contacts", "contacts-ca", "contacts-closest", "contacts-sidechain", "contacts-sidechain-heavy", "rg", "gyration-eig", "drid"):
             if name not in oa:
                 continue
             a, b = np.asarray(oa[name], dtype=np.float64), np.asarray(ob[name], dtype=np.float64)
@@ -227,6 +231,6 @@ def run_case(case):
 
 TECHNIQUE = "metamorphic property-based testing (Hypothesis): observable(before) vs observable(after) under exact and inexact rigid motions and lattice shifts"
 LEVEL_TEXT = ("A quantised protein fragment is rotated (the 24 exact cube rotations or random SO(3)), translated (dyadic up to 512 nm or arbitrary up "
-              "to 500 nm) or, under periodic boundaries, scattered by per-atom lattice vectors; ~15 observables are recomputed and compared "
+              "to 500 nm) or, under periodic boundaries, scattered by per-atom lattice vectors; ~16 observables (distances, closest-contact distance, angles, ...) are recomputed and compared "
               "(identical discrete results under exact transforms, tolerance-bounded continuous ones, neighbour sets modulo borderline pairs).")
 LEVEL_NOTE = "One seed structure (perturbation comes from the transformations); tolerances stated in the assumptions."
